@@ -26,6 +26,7 @@ structure Lit where
   dt   : String      -- datatype IRI, "" when absent
   lang : String      -- language tag lower-cased, "" when absent
   val  : LitVal
+  ill  : Bool := false   -- rdflib `Literal.ill_typed is True`
   deriving DecidableEq, Repr, Inhabited
 
 inductive Term where
